@@ -6,6 +6,7 @@ import (
 	"runtime"
 	"sort"
 	"strings"
+	"time"
 	"unsafe"
 )
 
@@ -136,6 +137,8 @@ func (d *dumper) reg(addr uintptr) (int, bool) {
 	return id, false
 }
 
+var timeType = reflect.TypeOf(time.Time{})
+
 func access(v reflect.Value) reflect.Value {
 	if v.CanInterface() || !v.CanAddr() {
 		return v
@@ -224,6 +227,17 @@ func (d *dumper) walk(v reflect.Value) {
 				}
 			}
 		}
+		// a point in time is rendered through the renaming (relative to the caller's clock), never by its
+		// representation: absolute instants differ between the paths that reach one state
+		if d.intMap != nil && v.Type() == timeType && v.CanInterface() {
+			tm := v.Interface().(time.Time)
+			if tm.IsZero() {
+				d.sb.WriteString("time(zero)")
+			} else {
+				d.sb.WriteString("time(" + d.intMap(tm.UnixNano()) + ")")
+			}
+			return
+		}
 		if v.CanAddr() {
 			// register the struct's own address so interior pointers to it
 			// (e.g. &list.root, &dlist.DoubleNode) resolve to one identity.
@@ -234,6 +248,9 @@ func (d *dumper) walk(v reflect.Value) {
 		d.sb.WriteString("{")
 		t := v.Type()
 		for i := 0; i < v.NumField(); i++ {
+			if t.Field(i).Name == "hb" && strings.HasSuffix(t.PkgPath(), "/vrt") {
+				continue // the channel model's edge counter for the race detector: instrumentation, not behaviour
+			}
 			if i > 0 {
 				d.sb.WriteString(",")
 			}
